@@ -10,6 +10,7 @@ import SradModel.Drv.Templ
 import SradModel.Drv.Admit
 import SradModel.Drv.Derive
 import SradModel.Drv.HostLoop
+import SradModel.Drv.HostLoopLts
 import SradModel.Drv.Topic
 import SradModel.Drv.Eon
 import SradModel.Drv.Metric
@@ -26,6 +27,7 @@ structure DState where
   templ : Templ.Registry := []
   derive : Option Derive.Schema := none
   hostloop : HLState := {}
+  hll : HllD := {}
   eon : EonD := {}
   birth : BWorld := {}
   cmd : CmdSt := {}
@@ -56,6 +58,9 @@ def step (st : DState) (line : String) : DState × String :=
   | "eon" :: rest =>
     let (e, o) := stepEon st.eon rest
     ({ st with eon := e }, o)
+  | "hll" :: rest =>
+    let (h, o) := stepHll st.hll rest
+    ({ st with hll := h }, o)
   | "hostloop" :: rest =>
     let (h, o) := stepHostLoop st.hostloop rest
     ({ st with hostloop := h }, o)
